@@ -1,7 +1,7 @@
 (* C17 — JSON report codec and text forms of stream values round-trip.
    Only statements; proofs are `exact <lemma>` into proofs/TextProofs.v. *)
 From DS Require Import Base RepoConstants Decimal StreamValue TextForms JsonReportBytes TextProofs JsonBytesProofs.
-From DS Require JsonPackBytes Base64Proofs.
+From DS Require JsonPackBytes Base64Proofs JsonPackProofs.
 
 (* the two regular expressions in /repo are the modelled ones (regenerated from the source on every run) *)
 Example C17_gen_regexes : quote_regex_found = true /\ tsv_regex_found = true /\
@@ -55,6 +55,13 @@ Theorem C17_signature_base64_roundtrip : forall bs, Forall (fun b => 0 <= b < 25
   JsonPackBytes.b64_decode (JsonPackBytes.b64_encode bs) = Some bs.
 Proof. exact Base64Proofs.b64_roundtrip. Qed.
 Print Assumptions C17_signature_base64_roundtrip.
+(* ... and the whole tuple at byte level: reading back the text Pack wrote (JsonPackBytes.json_pack_bytes, compared byte for
+   byte with the real Pack; the reader json_unpack_bytes is run on the real bytes too) recovers digest, sequence number,
+   report and every signature.  The report must have the shape JSONReportCodec.Encode writes. *)
+Theorem C17_pack_unpack_bytes : forall t j sn, JsonPackProofs.ptuple_ok t j ->
+  JsonPackBytes.json_unpack_bytes (JsonPackBytes.json_pack_bytes t sn) = Some (t, match pt_sigs t with [] => sn | _ => false end).
+Proof. exact JsonPackProofs.json_unpack_pack. Qed.
+Print Assumptions C17_pack_unpack_bytes.
 Example C17_nv_base64 : JsonPackBytes.b64_encode [77; 97; 110; 255; 0] = str_bytes "TWFu/wA=".
 Proof. vm_compute. reflexivity. Qed.
 
@@ -70,3 +77,18 @@ Example C17_nv :
   sval_text (SDec (mkdec (-123456789012345678901234567890) (-40))) = str_bytes "-0.000000000012345678901234567890123456789" /\
   typed_parse 3 2 (sval_text v) = Some (Ok (STsv 18446744073709551615 (STsv 0 (SQuote (mkdec (-15) (-1)) (mkdec 123 (-2)) (mkdec (5 * 10 ^ 40) 0))))).
 Proof. cbv zeta. repeat split; vm_compute; reflexivity. Qed.
+Definition C17_nv_j : jreport :=
+  {| j_digest := hex_encode (repeat 7 32); j_seq := 3; j_chan := 9; j_va := 1000; j_ts := 2000;
+     j_values := [(0, str_bytes "1.5"); (1, str_bytes "Q{Bid: 1, Benchmark: 2, Ask: 3}")]; j_specimen := false |}.
+Definition C17_nv_t : ptuple :=
+  {| pt_digest := repeat 7 32; pt_seq := 3; pt_report := json_report_bytes C17_nv_j; pt_sigs := [([1; 2; 3; 255], 2); ([], 0)] |}.
+Example C17_nv_pack : JsonPackProofs.ptuple_ok C17_nv_t C17_nv_j /\
+  JsonPackBytes.json_unpack_bytes (JsonPackBytes.json_pack_bytes C17_nv_t false) = Some (C17_nv_t, false).
+Proof.
+  split; [|vm_compute; reflexivity].
+  unfold JsonPackProofs.ptuple_ok. split; [reflexivity|]. split; [apply Forall_forall; intros b Hb; apply repeat_spec in Hb; lia|].
+  split; [cbn; lia|]. split; [reflexivity|]. split.
+  - unfold jreport_ok. split; [vm_compute; reflexivity|]. cbn [j_seq j_chan j_va j_ts C17_nv_j]. repeat split; try lia.
+    repeat (apply Forall_cons; [split; [cbn; lia|vm_compute; reflexivity]|]). apply Forall_nil.
+  - repeat (apply Forall_cons; [split; [cbn [fst]; repeat (apply Forall_cons; [lia|]); apply Forall_nil|cbn; lia]|]). apply Forall_nil.
+Qed.
